@@ -198,7 +198,7 @@ std::vector<std::string> Cells(int tier) {
         }
       }
       // two rounds, mixed roles per coroutine
-      for (const char* p : {"c0=LS,c1=SL", "c0=LL,c1=SS", "c0=GH,c1=HG", "c0=TS,c1=tL", "c0=LS,c1=LS"}) {
+      for (const char* p : {"c0=LS,c1=SL", "c0=LL,c1=SS", "c0=GH,c1=HG", "c0=TS,c1=tL", "c0=LS,c1=LS", "c0=tL,c1=Lt", "c0=Uu,c1=uU", "c0=Tt,c1=tT"}) {
         cells.push_back(std::string{"opt="} + opt + ",exe=" + exe + "," + p);
       }
       // writer vs writer, reader vs reader
@@ -239,7 +239,9 @@ bool CellBounds(const vx::Cell& cell, int tier, vx::Bounds& b) {
   } else if (k == 3) {
     b.P = tier == 0 ? 2 : 3;
   } else {
-    b.P = two_rounds ? (tier == 0 ? 3 : 4) : (tier == 0 ? 3 : 99);
+    // two rounds: a failed Try* that leaves something behind needs a second acquisition to show (4 preemptions in the
+    // one seeded case found so far); calibrated: P=5 is ~12 k schedules per cell, all interleavings ~640 k
+    b.P = two_rounds ? (tier == 0 ? 5 : 99) : (tier == 0 ? 3 : 99);
   }
   b.S = 1;
   b.T = 0;
